@@ -92,7 +92,40 @@ def build_app(server, sset: list):
 TOK = {"zstd": "z", "gzip": "g"}
 
 
-def observe(path: str, st: int, hd: list, body: bytes, ref: bytes) -> dict:
+TOKEN_KEYS = (b"stream_state", b"call_state")
+
+
+def canon(body: bytes):
+    """decoded IPC content with the per-response state tokens left out (they are re-sealed on every response)"""
+    out = []
+    for st in U.world.read_streams(body):
+        if "error" in st or not st.get("complete"):
+            return ("undecodable", body)
+        out.append((str(st["schema"]), [(b.to_pydict(), sorted((k, v) for k, v in md.items()
+                                                                if not any(t in k for t in TOKEN_KEYS)))
+                                         for b, md in st["batches"]]))
+    return out
+
+
+class Ref:
+    """the response to the same request sent without accept headers"""
+
+    def __init__(self, app, url, body, base):
+        st1, hd1, b1 = U.wsgi_call(app, "POST", url, body, base)
+        st2, _, b2 = U.wsgi_call(app, "POST", url, body, base)
+        if st1 != st2 or U.hall(hd1, "Content-Encoding") or U.hall(hd1, "X-VGI-Content-Encoding"):
+            raise MachineryError(f"reference response for {url} is not plain / not stable")
+        self.url, self.body, self.status = url, body, st1
+        self.exact = b1 if b1 == b2 else None          # byte-deterministic responses are compared byte for byte
+        self.canon = canon(b1)
+        if self.exact is None and canon(b2) != self.canon:
+            raise MachineryError(f"reference response for {url} differs beyond its state tokens")
+
+    def same(self, plain: bytes) -> bool:
+        return plain == self.exact if self.exact is not None else canon(plain) == self.canon
+
+
+def observe(path: str, st: int, hd: list, body: bytes, ref: Ref) -> dict:
     std = [x.strip().lower() for x in U.hall(hd, "Content-Encoding")]
     vgi = [x.strip().lower() for x in U.hall(hd, "X-VGI-Content-Encoding")]
     hdr = "both" if (std and vgi) else "std" if std else "vgi" if vgi else "none"
@@ -104,8 +137,67 @@ def observe(path: str, st: int, hd: list, body: bytes, ref: bytes) -> dict:
         coding, plain = TOK[name], U.decode_coding(name, body)
     else:
         coding, plain = "other", None
-    return {"path": path, "status": st, "coding": coding, "hdr": hdr, "decodes": plain is not None,
-            "same": plain is not None and plain == ref}
+    return {"path": path, "status": st, "refstatus": ref.status, "coding": coding, "hdr": hdr,
+            "decodes": plain is not None, "same": plain is not None and ref.same(plain)}
+
+
+EXTRA_PATHS = ["producer", "unary_small", "init", "exch_init", "exchange", "rpc_error", "not_found", "bad_request"]
+
+
+def client_leg(ctx, apps, server, obs):
+    """the repository's own client (http_connect over the in-process test client): what it offers, what the server
+    announces, and whether the values it hands back are the reference values"""
+    import pyarrow as pa
+
+    from vgi_rpc.http import http_connect
+    from vgi_rpc.http._testing import _SyncTestClient
+    from vgi_rpc.rpc import AnnotatedBatch
+
+    seen: list = []
+
+    class Rec(_SyncTestClient):
+        __slots__ = ()
+
+        def post(self, url, *, content, headers):
+            r = super().post(url, content=content, headers=headers)
+            seen.append((url, headers.get("Accept-Encoding"), headers.get("X-VGI-Accept-Encoding"), r))
+            return r
+
+    data = b"client leg " * 300
+    for k, app in apps.items():
+        for level in (1, None):
+            del seen[:]
+            ok = False
+            try:
+                with http_connect(U.Svc, client=Rec(app), compression_level=level) as p:
+                    r1 = p.echo(data=data)
+                    rows = []
+                    for b in p.prod():
+                        rows += b.batch.to_pydict()["v"]
+                    with p.exch() as s:
+                        ex = s.exchange(AnnotatedBatch(batch=pa.RecordBatch.from_pydict({"a": [1, 2, 3]}, schema=U.IN)))
+                        exv = ex.batch.to_pydict()
+                ok = r1 == data and rows == [7] + list(range(U.BIG_ROWS)) and exv == {"v": [4]}
+            except Exception as exc:  # noqa: BLE001 -- a client that cannot read the response is an observation
+                ctx.extra.setdefault("client_leg_errors", []).append(repr(exc)[:200])
+            for url, a_txt, v_txt, r in seen:
+                tok = lambda txt: [TOK.get(t.strip().lower().split(";")[0], "i" if t.strip().lower() == "identity" else "u")
+                                   for t in (txt or "").split(",") if t.strip()]
+                case = {"a": tok(a_txt), "v": tok(v_txt), "s": list(k)}
+                if len(case["a"]) > 3 or len(case["v"]) > 2:
+                    continue                       # outside the enumerated space of the quick tier: not judged
+                if not (r.headers.get("content-type") or "").startswith(U.ARROW_CT):
+                    continue                       # e.g. the 415 that makes the client fall back to another request codec
+                hd = list(r.headers.items())
+                std = [x.strip().lower() for x in U.hall(hd, "Content-Encoding")]
+                vgi = [x.strip().lower() for x in U.hall(hd, "X-VGI-Content-Encoding")]
+                named = set(std + vgi)
+                run = {"path": "client", "status": r.status_code, "refstatus": r.status_code,
+                       "coding": "none" if not named else TOK.get(next(iter(named)), "other") if len(named) == 1 else "other",
+                       "hdr": "both" if (std and vgi) else "std" if std else "vgi" if vgi else "none",
+                       "decodes": ok, "same": ok}
+                obs.append({"case": case, "runs": [run], "_h": [a_txt, v_txt], "_e": {"coding": "?", "hdr": ["?"]}})
+                ctx.case([a_txt, v_txt, list(k), "client", url, level])
 
 
 def run(ctx: Ctx) -> None:
@@ -137,8 +229,10 @@ def run(ctx: Ctx) -> None:
                                    name=f"Negotiate:enumerate[A<={pc['MaxA']},V={pc['MinV']}..{pc['MaxV']}]")
     ctx.exhaustive = True
     ctx.rule = ("case = (Accept-Encoding list, X-VGI-Accept-Encoding list, server encode set), all enumerated by TLC "
-                "from Negotiate!Cases; each is executed on path unary and (all / a fixed stride of the longest) on a "
-                "producer continuation; non-trivial = distinct (rendered header pair, server set, path) executed on "
+                "from Negotiate!Cases; each is executed on the unary response and on one further kind of response in rotation "
+                "(producer continuation = pre-compressed path, tiny unary result, producer init, exchange init, exchange "
+                "turn, RPC error, 404, 400; all kinds for the shortest cases), plus the Arrow responses to the requests the "
+                "repository's own client issues through http_connect; non-trivial = distinct (rendered header pair, server set, path) executed on "
                 "the real app. Rule used: preference order = VGI list then generic list; identity first => no coding; "
                 "a coding offered on both headers may be announced on either header (statement gives no choice; the "
                 "repository's conformance suite uses Content-Encoding), announced on exactly one.")
@@ -150,22 +244,32 @@ def run(ctx: Ctx) -> None:
     server, impl = U.build_server()
     apps = {}
     refs = {}
-    ubody = U.echo_body(server, 2000, fill=b"negotiation ")
     base = {"Content-Type": U.ARROW_CT, "X-Request-ID": "c19"}
     for sset in ([], ["z"], ["g"], ["z", "g"]):
         app = build_app(server, sset)
         k = tuple(sset)
         apps[k] = app
-        st, hd, ref_u = U.wsgi_call(app, "POST", "/echo", ubody, base)
         st1, _, init = U.wsgi_call(app, "POST", "/prod/init", U.unary_body(server, "prod", {}), base)
-        if st != 200 or st1 != 200:
-            raise MachineryError(f"reference requests failed: {st} {st1}")
-        tick = U.tick_body(U.tokens_of(init))
-        st2, hd2, ref_p = U.wsgi_call(app, "POST", "/prod/exchange", tick, base)
-        st3, _, ref_p2 = U.wsgi_call(app, "POST", "/prod/exchange", tick, base)
-        if st2 != 200 or ref_p != ref_p2 or U.hall(hd2, "Content-Encoding") or not U.arrow_shape(ref_p)["arrow"]:
-            raise MachineryError("producer continuation reference is not deterministic / not plain")
-        refs[k] = (ref_u, tick, ref_p)
+        st2, _, einit = U.wsgi_call(app, "POST", "/exch/init", U.unary_body(server, "exch", {}), base)
+        if st1 != 200 or st2 != 200:
+            raise MachineryError(f"reference stream inits failed: {st1} {st2}")
+        r = {"unary": Ref(app, "/echo", U.echo_body(server, 2000, fill=b"negotiation "), base),
+             "unary_small": Ref(app, "/echo", U.echo_body(server, 3), base),
+             "producer": Ref(app, "/prod/exchange", U.tick_body(U.tokens_of(init)), base),
+             "init": Ref(app, "/prod/init", U.unary_body(server, "prod", {}), base),
+             "exch_init": Ref(app, "/exch/init", U.unary_body(server, "exch", {}), base),
+             "exchange": Ref(app, "/exch/exchange", U.exchange_body(U.tokens_of(einit), rows=range(50)), base),
+             "rpc_error": Ref(app, "/fail", U.unary_body(server, "fail", {"x": 1}), base),
+             "not_found": Ref(app, "/no_such_method", U.echo_body(server, 10), base),
+             "bad_request": Ref(app, "/echo", b"this is not an arrow stream", base)}
+        want = {"unary": 200, "unary_small": 200, "producer": 200, "init": 200, "exch_init": 200, "exchange": 200,
+                "rpc_error": 200, "not_found": 404, "bad_request": 400}
+        for name, ref in r.items():
+            if ref.status != want[name]:
+                raise MachineryError(f"reference request {name} answered {ref.status}")
+        if r["producer"].exact is None:
+            raise MachineryError("producer continuation reference is not byte-deterministic")
+        refs[k] = r
 
     obs: list[dict] = []
     nviol = 0
@@ -188,27 +292,28 @@ def run(ctx: Ctx) -> None:
                               {"case": o["case"], "headers_sent": o["_h"], "observed": run})
         obs = []
 
-    stride = 1 if quick else 3
     for ci, cj in enumerate(cases):
         case = cj["case"]
         k = tuple(case["s"])
         app = apps[k]
-        ref_u, tick, ref_p = refs[k]
-        short = len(case["a"]) + len(case["v"]) <= 3
+        r = refs[k]
+        short = len(case["a"]) + len(case["v"]) <= 2
         renders = [(render(case["a"], ctx.rng, plain=True), render(case["v"], ctx.rng, plain=True))] if short else []
         renders.append((render(case["a"], ctx.rng), render(case["v"], ctx.rng)))
         for a_txt, v_txt in renders:
             h = {**base, "Accept-Encoding": a_txt, "X-VGI-Accept-Encoding": v_txt}
-            st, hd, body = U.wsgi_call(app, "POST", "/echo", ubody, h)
-            runs = [observe("unary", st, hd, body, ref_u)]
-            ctx.case([a_txt, v_txt, case["s"], "unary"])
-            if short or ci % stride == 0:
-                st, hd, body = U.wsgi_call(app, "POST", "/prod/exchange", tick, h)
-                runs.append(observe("producer", st, hd, body, ref_p))
-                ctx.case([a_txt, v_txt, case["s"], "producer"])
+            # every case: the unary response and one further kind of response in rotation; short cases: all kinds
+            paths = ["unary"] + (EXTRA_PATHS if short else [EXTRA_PATHS[ci % len(EXTRA_PATHS)]])
+            runs = []
+            for path in paths:
+                ref = r[path]
+                st, hd, body = U.wsgi_call(app, "POST", ref.url, ref.body, h)
+                runs.append(observe(path, st, hd, body, ref))
+                ctx.case([a_txt, v_txt, case["s"], path])
             obs.append({"case": case, "runs": runs, "_h": [a_txt, v_txt], "_e": cj["exp"]})
         if len(obs) >= 120000:
             flush()
+    client_leg(ctx, apps, server, obs)
     for o in obs[:: max(1, len(obs) // 5)][:5]:
         ctx.sample({"abstract": o["case"], "headers_sent": {"Accept-Encoding": o["_h"][0],
                                                             "X-VGI-Accept-Encoding": o["_h"][1]},
